@@ -53,6 +53,8 @@ def plan(tier, seed):
             # size ladder: 2^20 .. 2^23+ elements, row counts that are not multiples of any block size
             if dt == "float32" or tier == "thorough":
                 shapes_l = [[1031, 1024]] + ([[8193, 1024]] if (tier == "thorough" or q in ("qint8", "qfloat8_e4m3fn", "qint4")) else [])
+                if tier == "thorough" and dt == "float32":
+                    shapes_l.append([4100, 4224])
                 for shp in shapes_l:
                     tasks.append({"kind": "large", "dt": dt, "q": q, "tier": tier, "shape": shp})
     return tasks
